@@ -19,6 +19,56 @@ PURE_BUILTINS = {'range', 'len', 'min', 'max', 'iter', 'next', 'int', 'abs', 'bo
 ARM_CALLS = {'range', 'len', 'min', 'max', 'int', 'abs', 'enumerate', 'zip', 'reversed'}
 
 
+ARM_FUNCS = set()      # module-level functions of the module being rewritten that are safe to call speculatively (see simple_pure)
+
+
+def simple_pure(tree):
+    """names of module-level functions that only compute a value from their arguments: statements are return / assignment
+    to local names / if / docstring, calls only to pure builtins or to other such functions (fixpoint). Calling one inside a
+    speculatively executed arm cannot have a side effect."""
+    fns = {n.name: n for n in tree.body if isinstance(n, ast.FunctionDef) and not n.decorator_list}
+    ok = set(fns)
+
+    def body_ok(stmts, allowed):
+        for s in stmts:
+            if isinstance(s, ast.Expr) and isinstance(s.value, ast.Constant):
+                continue
+            if isinstance(s, ast.Return):
+                pass
+            elif isinstance(s, (ast.Assign, ast.AugAssign)):
+                tg = s.targets if isinstance(s, ast.Assign) else [s.target]
+                if not all(isinstance(t, ast.Name) for t in tg):
+                    return False
+            elif isinstance(s, ast.If):
+                if not body_ok(s.body, allowed) or not body_ok(s.orelse, allowed):
+                    return False
+                for n in ast.walk(s.test):
+                    if isinstance(n, ast.Call) and not (isinstance(n.func, ast.Name) and n.func.id in allowed):
+                        return False
+                continue
+            elif isinstance(s, ast.Pass):
+                continue
+            else:
+                return False
+            for n in ast.walk(s):
+                if isinstance(n, ast.Call) and not (isinstance(n.func, ast.Name) and n.func.id in allowed):
+                    return False
+                if isinstance(n, (ast.Yield, ast.YieldFrom, ast.Await, ast.NamedExpr, ast.Lambda, ast.ListComp, ast.GeneratorExp,
+                                  ast.SetComp, ast.DictComp, ast.Starred)):
+                    return False
+        return True
+    changed = True
+    while changed:
+        changed = False
+        for name in sorted(ok):
+            f = fns[name]
+            a = f.args
+            if a.vararg or a.kwarg or not body_ok(f.body, PURE_BUILTINS | ok):
+                ok.discard(name)
+                changed = True
+    return ok
+
+
 def _rt(name):
     return ast.Attribute(ast.Name('__sx__', ast.Load()), name, ast.Load())
 
@@ -47,7 +97,7 @@ def mergeable(stmts):
                     continue
                 return False
             for n in ast.walk(s):
-                if isinstance(n, ast.Call) and not (isinstance(n.func, ast.Name) and n.func.id in ARM_CALLS):
+                if isinstance(n, ast.Call) and not (isinstance(n.func, ast.Name) and (n.func.id in ARM_CALLS or n.func.id in ARM_FUNCS)):
                     return False
                 if isinstance(n, (ast.Yield, ast.YieldFrom, ast.Await, ast.NamedExpr, ast.Lambda,
                                   ast.ListComp, ast.GeneratorExp, ast.SetComp, ast.DictComp)):
@@ -472,11 +522,14 @@ class BreakDesugar(ast.NodeTransformer):
 
 def transform(src, path, modname, package):
     tree = ast.parse(src, path)
+    ARM_FUNCS.clear()
+    ARM_FUNCS.update(simple_pure(tree))
     bd = BreakDesugar()
     tree = bd.visit(tree)
     ast.fix_missing_locations(tree)
     tr = Transformer(modname, package)
     tr.desugared_break_loops = bd.count
+    tr.arm_functions = sorted(ARM_FUNCS)
     tree = tr.visit(tree)
     ast.fix_missing_locations(tree)
     return tree, tr
